@@ -27,6 +27,8 @@ package verifharness
 //   mkey <PathFunc> pre args… (key the Tendermint client looks up: NewMerklePath + ApplyPrefix + GetKey(1)) | mcodec s
 //   e2e commit|ack pre src dst seq val  (real ICS-23 proof from an IAVL store through VerifyPacketCommitment/Acknowledgement)
 //   ctoggle name rev h t | cupgrade name rev h t   (client keeper ToggleClient / UpgradeClient between the TM and a TSS client state)
+//   gcons name [limit]  (client gRPC ConsensusStates, all pages; with a page limit: paged through NextKey) | gclients (ClientStates)
+//   grpcp commit|ack src dst limit   (packet gRPC list queries paged through NextKey)
 //   grpc commit|ack src dst                      (query server PacketCommitments / PacketAcknowledgements)
 
 import (
@@ -1504,6 +1506,191 @@ func (w *c19World) apply(r *Rec, op string) string {
 		w.dirty = true
 		return "ok"
 
+	case "gcons":
+		name := string(unhx(f[1]))
+		ck := w.app.XIBCKeeper.ClientKeeper
+		limit := uint64(1 << 20)
+		if len(f) > 2 {
+			limit = c19U64(f[2])
+		}
+		var out []string
+		var qerr error
+		pan, msg := safely(func() {
+			page := &query.PageRequest{Limit: limit}
+			for i := 0; i < 100000; i++ {
+				resp, err := ck.ConsensusStates(sdk.WrapSDKContext(w.ctx), &clienttypes.QueryConsensusStatesRequest{ChainName: name, Pagination: page})
+				if err != nil {
+					qerr = err
+					return
+				}
+				for _, cs := range resp.ConsensusStates {
+					out = append(out, fmt.Sprintf("%d-%d", cs.Height.RevisionNumber, cs.Height.RevisionHeight))
+				}
+				if resp.Pagination == nil || len(resp.Pagination.NextKey) == 0 {
+					return
+				}
+				page = &query.PageRequest{Key: resp.Pagination.NextKey, Limit: limit}
+			}
+		})
+		// ---- oracle (own record): the query returns exactly the heights consensus states were written at for this client ----
+		if !w.dirty && c19ValidName(name) {
+			r.Count("oracle.grpc-ConsensusStates")
+			if len(f) > 2 {
+				r.Count("grpc-ConsensusStates.paged")
+			}
+			want := map[string]bool{}
+			for k := range w.cons {
+				p := strings.Split(k, ":")
+				if p[0] == f[1] {
+					want[p[1]+"-"+p[2]] = true
+				}
+			}
+			got := map[string]bool{}
+			for _, o := range out {
+				got[o] = true
+			}
+			cls := func(h string) string {
+				var a, b uint64
+				fmt.Sscanf(h, "%d-%d", &a, &b)
+				kb := host.ConsensusStateKey(clienttypes.NewHeight(a, b))
+				if bytes.IndexByte(kb[len(kb)-16:], '/') >= 0 {
+					return "height-bytes-with-0x2f"
+				}
+				return "other-height"
+			}
+			for h := range want {
+				if cls(h) == "height-bytes-with-0x2f" {
+					r.Count("grpc-ConsensusStates.0x2f-height")
+				}
+			}
+			switch {
+			case pan:
+				w.find(r, "C19:grpc-ConsensusStates-panic", "the ConsensusStates query panics on keys written through the keeper: "+msg, "panic", fmt.Sprint(len(want))+" heights")
+			case qerr != nil:
+				w.find(r, "C19:grpc-ConsensusStates-error", "the ConsensusStates query fails on keys written through the keeper: "+qerr.Error(), "error", fmt.Sprint(len(want))+" heights")
+			default:
+				for h := range want {
+					if !got[h] {
+						w.find(r, "C19:grpc-ConsensusStates-lost-entry:"+cls(h), "a consensus state written for this client is not returned by the ConsensusStates query", strings.Join(out, ",")+" (missing "+h+")", "includes "+h)
+					}
+				}
+				for h := range got {
+					if !want[h] {
+						w.find(r, "C19:grpc-ConsensusStates-wrong-entry:"+cls(h), "the ConsensusStates query returns a height nothing was written at", h, "only written heights")
+					}
+				}
+				if len(out) != len(got) {
+					w.find(r, "C19:grpc-ConsensusStates-wrong-entry:duplicate", "the ConsensusStates query returns a height twice (paging)", strings.Join(out, ","), "each height once")
+				}
+			}
+		}
+		if pan {
+			r.Count("iter.panic")
+			return "panic"
+		}
+		if qerr != nil {
+			return "err"
+		}
+		r.Nontrivial(strings.Join(w.hist, ";"))
+		return c19OkList(out)
+
+	case "gclients":
+		var out []string
+		var qerr error
+		pan, _ := safely(func() {
+			resp, err := w.app.XIBCKeeper.ClientKeeper.ClientStates(sdk.WrapSDKContext(w.ctx), &clienttypes.QueryClientStatesRequest{})
+			if err != nil {
+				qerr = err
+				return
+			}
+			for _, cs := range resp.ClientStates {
+				out = append(out, hxs(cs.ChainName))
+			}
+		})
+		if pan {
+			r.Count("iter.panic")
+			return "panic"
+		}
+		if qerr != nil {
+			return "err"
+		}
+		if !w.dirty {
+			r.Count("oracle.grpc-ClientStates")
+			got := map[string]bool{}
+			for _, o := range out {
+				got[o] = true
+			}
+			for n := range w.clients {
+				if !got[n] {
+					w.find(r, "C19:grpc-ClientStates-lost-entry:name", "a client state written through the keeper is not returned by the ClientStates query", strings.Join(out, ","), "includes "+n)
+				}
+			}
+			for n := range got {
+				if !w.clients[n] {
+					w.find(r, "C19:grpc-ClientStates-wrong-entry:name", "the ClientStates query returns a client nothing was written for", n, "only written clients")
+				}
+			}
+		}
+		return c19OkList(out)
+
+	case "grpcp":
+		// the packet list queries paged through NextKey: the union of the pages is the unpaged answer
+		fam, src, dst, limit := f[1], string(unhx(f[2])), string(unhx(f[3])), c19U64(f[4])
+		pk := w.app.XIBCKeeper.PacketKeeper
+		var out []string
+		var qerr error
+		pan, _ := safely(func() {
+			page := &query.PageRequest{Limit: limit}
+			for i := 0; i < 100000; i++ {
+				var states []*packettypes.PacketState
+				var pr *query.PageResponse
+				if fam == "commit" {
+					resp, err := pk.PacketCommitments(sdk.WrapSDKContext(w.ctx), &packettypes.QueryPacketCommitmentsRequest{SrcChain: src, DstChain: dst, Pagination: page})
+					if err != nil {
+						qerr = err
+						return
+					}
+					states, pr = resp.Commitments, resp.Pagination
+				} else {
+					resp, err := pk.PacketAcknowledgements(sdk.WrapSDKContext(w.ctx), &packettypes.QueryPacketAcknowledgementsRequest{SrcChain: src, DstChain: dst, Pagination: page})
+					if err != nil {
+						qerr = err
+						return
+					}
+					states, pr = resp.Acknowledgements, resp.Pagination
+				}
+				for _, ps := range states {
+					out = append(out, hxs(ps.SrcChain)+":"+hxs(ps.DstChain)+":"+strconv.FormatUint(ps.Sequence, 10)+":"+w.kindOf(ps.Data))
+				}
+				if pr == nil || len(pr.NextKey) == 0 {
+					return
+				}
+				page = &query.PageRequest{Key: pr.NextKey, Limit: limit}
+			}
+		})
+		if pan {
+			r.Count("iter.panic")
+			return "panic"
+		}
+		if qerr != nil {
+			return "err"
+		}
+		if !w.dirty && c19ValidName(src) && c19ValidName(dst) {
+			r.Count("oracle.grpc-packet-paged")
+			want := map[string]string{}
+			for k, v := range w.written[fam] {
+				p := strings.Split(k, ":")
+				if string(unhx(p[0])) == src && string(unhx(p[1])) == dst {
+					want[k] = v
+				}
+			}
+			if !c19SetEq(out, want) {
+				name := map[string]string{"commit": "PacketCommitments", "ack": "PacketAcknowledgements"}[fam]
+				w.find(r, "C19:grpc-"+name+"-lost-entry:paged", "paging through the packet list query does not return exactly the entries written for (src, dst)", strings.Join(out, ","), sortedKV(want))
+			}
+		}
+		return c19OkList(out)
+
 	case "iseq":
 		var out []string
 		var seqs []packettypes.PacketSequence
@@ -2139,7 +2326,7 @@ func (g c19Gen) history(clean bool, long bool) []string {
 			h = append(h, []string{"ihash commit", "ihash ack", "ihash receipt", "iseq", "icons", "iclients"}[g.n(6)])
 		}
 	}
-	h = append(h, "dump", "ihash commit", "ihash ack", "ihash receipt", "iseq", "icons", "iclients")
+	h = append(h, "dump", "ihash commit", "ihash ack", "ihash receipt", "iseq", "icons", "iclients", "gclients")
 	var ns []string
 	for n := range used {
 		ns = append(ns, n)
@@ -2149,7 +2336,10 @@ func (g c19Gen) history(clean bool, long bool) []string {
 		ns = []string{hxs("abc")}
 	}
 	for _, n := range ns {
-		h = append(h, "tmpt "+n, "tmasc "+n, "bscasc "+n, "ethasc "+n)
+		h = append(h, "tmpt "+n, "tmasc "+n, "bscasc "+n, "ethasc "+n, "gcons "+n)
+		if g.n(2) == 0 {
+			h = append(h, fmt.Sprintf("gcons %s %d", n, 1+g.n(3)))
+		}
 	}
 	return h
 }
@@ -2227,6 +2417,9 @@ func (g c19Gen) bypathHistory(clean bool) []string {
 	for _, s := range srcs {
 		for _, d := range dsts {
 			h = append(h, "bypath-get "+hxs(s)+" "+hxs(d), "bypath-iter "+hxs(s)+" "+hxs(d), "grpc commit "+hxs(s)+" "+hxs(d), "grpc ack "+hxs(s)+" "+hxs(d))
+			if g.n(3) == 0 {
+				h = append(h, fmt.Sprintf("grpcp %s %s %s %d", []string{"commit", "ack"}[g.n(2)], hxs(s), hxs(d), 1+g.n(3)))
+			}
 		}
 	}
 	// a pair nothing was written for, and the roles swapped
